@@ -21,7 +21,8 @@
   Time is not in the trace: the only thing the implementation's clock decides is whether
   `updateStatus` took the timeout branch, and that is visible as the status of the following `s`.
   `replay` feeds `now = start + timeout + 1` to the op in front of an `s _ 2` and `now = start`
-  otherwise (a look-ahead to the next token logged under b.mu, no search).
+  otherwise (a look-ahead to the next token logged under b.mu, no search); `t0` (the clock read of
+  `reset()`) is the replay's running clock.
 -/
 import FileD.Prelude.Tok
 import FileD.Model.Batcher
@@ -93,11 +94,14 @@ structure Replay where
   st : State
   clock : Nat := 0
 
-def nowFor (c : Cfg) (r : Replay) (expired : Bool) : Nat :=
+/-- the two clock values of an Add / heartbeat step: `t0` (read in `reset()` if a batch is taken from
+    freeBatches) is the replay's clock; `now` (read in `updateStatus`) lies beyond the timeout exactly
+    when the implementation took the timeout branch -/
+def nowFor (c : Cfg) (r : Replay) (expired : Bool) : Nat × Nat :=
   let start := match r.st.cur with
     | some b => b.start
     | none => r.clock
-  if expired then start + c.timeout + 1 else start
+  (r.clock, if expired then start + c.timeout + 1 else start)
 
 /-- everything that was appended has been committed or handed over -/
 def State.drained (s : State) : Bool :=
@@ -107,11 +111,11 @@ def State.drained (s : State) : Bool :=
 def replayTk (c : Cfg) (r : Replay) (t : Tk) (rest : List Tk) : Option (Replay × Tk) :=
   match t with
   | .a e =>
-    let now := nowFor c r (expiredNext rest)
-    (step? c r.st (.add e now)).map fun s' => ({ st := s', clock := now }, .a e)
+    let (t0, now) := nowFor c r (expiredNext rest)
+    (step? c r.st (.add e t0 now)).map fun s' => ({ st := s', clock := max t0 now }, .a e)
   | .h =>
-    let now := nowFor c r (expiredNext rest)
-    (step? c r.st (.heartbeat now)).map fun s' => ({ st := s', clock := now }, .h)
+    let (t0, now) := nowFor c r (expiredNext rest)
+    (step? c r.st (.heartbeat t0 now)).map fun s' => ({ st := s', clock := max t0 now }, .h)
   | .s _ _ =>
     match r.st.cur with
     | none => none
